@@ -139,13 +139,14 @@ def _worker(engine, prop, tier, seed, indices, scratch, outpath, stopfile):
                 res["case"] = case
                 return res
 
-            status, payload = exec_isolated(fn, RUN_TIMEOUT)
+            tmo = getattr(engine, "timeouts", {}).get(tier, RUN_TIMEOUT)
+            status, payload = exec_isolated(fn, tmo)
             if status == "ok":
                 res = payload
             elif status == "harness_error":
                 res = {"harness_error": payload, "violations": []}
             elif status == "timeout":
-                res = {"harness_error": f"wall-clock backstop ({RUN_TIMEOUT}s) hit", "violations": []}
+                res = {"harness_error": f"wall-clock backstop ({tmo}s) hit", "violations": []}
             else:
                 res = {"harness_error": f"run process died: {payload}", "violations": []}
             res["index"] = i
